@@ -228,9 +228,83 @@ class Super:
         return [k for k, n in self.nodes.items() if not k[0] and n.body.blocks[n.bb]["term"]["k"] == "return"]
 
     def every_path_hits(self, src_nodes, dst_nodes, through):
-        """True iff every path from any src to any dst passes through a node in `through`"""
-        r = self.reach_after(src_nodes, avoid=through)
+        """True iff every path from any src to any dst passes through a node in `through`.
+        Switches that test the same value (see set_correlation) are followed consistently."""
+        if self.corr_key is not None:
+            r = self.reach_corr(src_nodes, avoid=through, after=True)
+        else:
+            r = self.reach_after(src_nodes, avoid=through)
         return not (r & set(dst_nodes))
+
+    corr_key = None
+
+    def set_correlation(self, keyfn):
+        """keyfn(node key) -> hashable identity of the value a switch node tests (or None).
+        Only values tested at two or more switch nodes are tracked."""
+        keys = {}
+        for k, n in self.nodes.items():
+            if n.body.blocks[n.bb]["term"]["k"] == "switch":
+                ck = keyfn(k)
+                if ck is not None:
+                    keys.setdefault(ck, []).append(k)
+        self.corr = {}
+        for ck, ks in keys.items():
+            if len(ks) >= 2:
+                for k in ks:
+                    self.corr[k] = ck
+        self.corr_key = keyfn
+
+    def _switch_choice(self, k, succ_key):
+        """which case value leads from switch node k to succ_key: the target block number is a
+        stable label for 'same branch' only within one switch, so label by case value"""
+        n = self.nodes[k]
+        t = n.body.blocks[n.bb]["term"]
+        tb = succ_key[2]
+        for v, b in t["targets"]:
+            if b == tb:
+                return str(v)
+        return "otherwise"
+
+    def reach_corr(self, starts, avoid=(), after=False, assume=None, forbid_edges=()):
+        """reachability where correlated switches take consistent branches; `assume` optionally
+        fixes {correlation key: case label} up front"""
+        avoid = set(avoid)
+        forbid = set(forbid_edges)
+        init = frozenset((assume or {}).items())
+        seen = set()
+        out = set()
+        if after:
+            st = []
+            for s0 in starts:
+                st.extend((y, a) for (y, a) in self._corr_succ(s0, init) if (s0, y) not in forbid)
+        else:
+            st = [(s0, init) for s0 in starts]
+        while st:
+            x, asm = st.pop()
+            if x in avoid or (x, asm) in seen:
+                continue
+            seen.add((x, asm))
+            out.add(x)
+            st.extend((y, a) for (y, a) in self._corr_succ(x, asm) if (x, y) not in forbid)
+        return out
+
+    def _corr_succ(self, x, asm):
+        ck = getattr(self, "corr", {}).get(x)
+        succs = self.succ.get(x, ())
+        if ck is None:
+            return [(y, asm) for y in succs]
+        d = dict(asm)
+        res = []
+        for y in succs:
+            lab = self._switch_choice(x, y)
+            if ck in d:
+                if d[ck] == lab or (d[ck] == "nonzero" and lab != "0") or (lab == "otherwise" and d[ck] not in [str(v) for v, b in self.nodes[x].body.blocks[self.nodes[x].bb]["term"]["targets"]]):
+                    res.append((y, asm))
+            else:
+                d2 = dict(d)
+                d2[ck] = lab if lab != "otherwise" else ("nonzero" if [str(v) for v, b in self.nodes[x].body.blocks[self.nodes[x].bb]["term"]["targets"]] == ["0"] else lab)
+                res.append((y, frozenset(d2.items())))
+        return res
 
     def in_cycle(self, k, avoid=()):
         return k in self.reach_after([k], avoid)
